@@ -191,6 +191,34 @@ pub fn c07(cx: &mut Ctx) {
             }
         }
     }
+    // long trailer sections: many short fields (67 .. 400) or a few very long ones, handed over in ONE slice, in
+    // two, and in small pieces
+    for (ti, (count, vlen)) in [(67usize, 20usize), (80, 22), (128, 20), (400, 18), (3, 11000), (1, 40000)].iter().enumerate() {
+        let mut coding = b"3\r\nabc\r\n0\r\n".to_vec();
+        for t in 0..*count { coding.extend_from_slice(format!("X-Tr-{:03}: {}\r\n", t, "v".repeat(*vlen)).as_bytes()); }
+        coding.extend_from_slice(b"\r\n");
+        for sched in 0..4 {
+            cx.case("manytr");
+            let _ = ti;
+            let arr: Vec<usize> = match sched {
+                0 => vec![],
+                1 => vec![coding.len() / 2],
+                2 => vec![11],
+                _ => (1..40).map(|k| k * (coding.len() / 40).max(1)).collect(),
+            };
+            one_c07(cx, &coding, &arr, &mut || 100000, if sched % 2 == 0 { None } else { Some(true) });
+        }
+    }
+    // chunk extensions are opaque: quoted strings with obs-text (bytes 0x80 .. 0xFF that are no UTF-8), on a data
+    // chunk and on the last chunk, within the 20-byte line limit
+    for (ei, coding) in [&b"6;n=\"caf\xe9\"\r\nabcdef\r\n0\r\n\r\n"[..], &b"2\r\nab\r\n0;sig=\"\xff\x80\"\r\n\r\n"[..],
+                         &b"1;\x80\r\na\r\n0;\xfe\xff\r\nT: 1\r\n\r\n"[..], &b"3;a=\xc3\xa9\r\nabc\r\n0\r\n\r\n"[..]].iter().enumerate() {
+        for cut in [0usize, 3, 9, coding.len() - 3] {
+            cx.case("obsext");
+            let _ = ei;
+            one_c07(cx, coding, &[cut], &mut || 64, if cut % 2 == 0 { None } else { Some(true) });
+        }
+    }
     // hex-digit boundaries
     for n in [15usize, 16, 17, 255, 256, 4095, 4096] {
         for style in [0usize, 1, 2, 7] {
@@ -240,8 +268,9 @@ pub fn c07(cx: &mut Ctx) {
         let mut off = 0;
         for _ in 0..200 {
             if r.chance(1, 4) { cx.op(&format!("stopb {}", r.below(2))); }
-            let upto = (off + r.range(0, 12)).min(stream.len());
-            let res = cx.op(&format!("bread {} {}", hx(&stream[off..upto]), r.range(1, 6)));
+            // windows large enough for the longest size line (20 digits) and for the rest of one chunk plus the next
+            let upto = (off + if r.chance(1, 2) { r.range(0, 12) } else { r.range(12, 60) }).min(stream.len());
+            let res = cx.op(&format!("bread {} {}", hx(&stream[off..upto]), if r.chance(1, 2) { r.range(1, 6) } else { r.range(6, 40) }));
             let p: Vec<&str> = res.split(' ').collect();
             if p[0] != "bytes" { break; }
             off += p[1].parse::<usize>().unwrap_or(0);
@@ -250,6 +279,31 @@ pub fn c07(cx: &mut Ctx) {
         }
         cx.meta(&format!("consumed {}", off));
         cx.op("proceed");
+    }
+    // the size ladder: chunk data length, trailer field length, number of trailer fields; whole, in two pieces
+    // and in pieces of 1000 bytes
+    for l in super::ladder(cx.thorough, 131072) {
+        let data: Vec<u8> = (0..l).map(|i| b"ab\r\n0;xHTTP/1. "[i % 15]).collect();
+        let mut codings: Vec<Vec<u8>> = vec![];
+        if l > 0 {
+            let mut c = format!("{:x}\r\n", l).into_bytes(); c.extend_from_slice(&data); c.extend_from_slice(b"\r\n0\r\n\r\n");
+            codings.push(c);
+        }
+        codings.push(format!("2\r\nab\r\n0\r\nX-T: {}\r\n\r\n", "t".repeat(l)).into_bytes());
+        if l <= 4097 {
+            let mut c = b"1\r\na\r\n0\r\n".to_vec();
+            for t in 0..l { c.extend_from_slice(format!("T{}: {}\r\n", t, t % 10).as_bytes()); }
+            c.extend_from_slice(b"\r\n");
+            codings.push(c);
+        }
+        for coding in &codings {
+            for sched in 0..3 {
+                cx.case("ladder");
+                let arr: Vec<usize> = match sched { 0 => vec![], 1 => vec![coding.len() / 2, coding.len() - 1], _ => (1..=coding.len() / 1000).map(|k| k * 1000).take(200).collect() };
+                let cap = if sched == 1 { 1000 } else { 200000 };
+                one_c07(cx, coding, &arr, &mut || cap, if sched == 2 { Some(true) } else { None });
+            }
+        }
     }
 }
 
@@ -489,5 +543,27 @@ pub fn c08(cx: &mut Ctx) {
         cx.op("canproceed");
         cx.op("proceed");
         cx.op("close?");
+    }
+    // the size ladder over the declared length: read in one call into exactly that much space, into more, in
+    // pieces of 1000
+    for n in super::ladder(cx.thorough, 131072) {
+        let body: Vec<u8> = (0..n).map(|i| b"HTTP/1.1 200\r\n0;x"[i % 17]).collect();
+        let head = format!("HTTP/1.1 200 OK\r\nContent-Length: {}\r\n\r\n", n).into_bytes();
+        let mut stream = body.clone();
+        stream.extend_from_slice(NEXT);
+        for sched in 0..3 {
+            cx.case("ladder");
+            if !to_recv_body(cx, "GET", &head) { cx.op("close?"); continue; }
+            cx.meta(&format!("len {} {}", n, hx(&body)));
+            cx.op("mode");
+            let cap = match sched { 0 => n.max(1), 1 => n + 50, _ => 1000 };
+            let arr: Vec<usize> = if sched == 2 { vec![n / 2, stream.len()] } else { vec![stream.len()] };
+            let used = read_schedule(cx, &stream, &arr, &mut || cap, false);
+            cx.meta(&format!("consumed {}", used));
+            cx.op(&format!("bread {} 10", hx(&stream[used.min(stream.len())..])));
+            cx.op("canproceed");
+            cx.op("proceed");
+            cx.op("close?");
+        }
     }
 }
